@@ -160,7 +160,10 @@ Refs2 == { <<Ref("", n1), Ref(f, n2)>>
            : n1 \in (IF Thorough THEN ReqNames ELSE {"pn-a", "pn-e", "pn-f"}), f \in {"", "net1", "eth100"}, n2 \in ReqNames }
 Refs3 == { <<Ref("", "pn-a"), Ref("net1", n2), Ref(f, n3)>>
            : n2 \in {"pn-b", "pn-e", "pn-f"}, f \in {"net1", "net2"}, n3 \in {"pn-a", "pn-b", "pn-c", "pn-e"} }
-ReqPayloads == { ReqsList(r) : r \in Refs1 \cup Refs2 \cup (IF Thorough THEN Refs3 ELSE {}) } \cup {ReqsBad, ReqsList(<<>>)}
+(* three networks whose first two share no zone (the running intersection is empty before the last one) *)
+RefsDisj == { <<Ref("", pr[1]), Ref("net1", pr[2]), Ref("net2", n3)>>
+              : pr \in {<<"pn-a", "pn-c">>, <<"pn-c", "pn-g">>, <<"pn-c", "pn-f">>}, n3 \in {"pn-a", "pn-b", "pn-e", "pn-c"} }
+ReqPayloads == { ReqsList(r) : r \in Refs1 \cup Refs2 \cup RefsDisj \cup (IF Thorough THEN Refs3 ELSE {}) } \cup {ReqsBad, ReqsList(<<>>)}
 
 FamR ==
     { [Base EXCEPT !.reqs = r, !.pns = ReqCluster, !.owner = o, !.aff = a, !.inject = j, !.trunk = t, !.labels = <<>>]
@@ -238,6 +241,7 @@ StrLen(s) == Len(s)     \* TLC: strings are sequences of characters
 TermZones(t) == { zn \in ZoneU : \A ix \in 1..Len(t) : zn \in Rng(t[ix]) }
 AllowedZones(aff) == IF Len(aff) = 0 THEN ZoneU ELSE UNION { TermZones(aff[k]) : k \in 1..Len(aff) }
 
+InputAllowed(in) == IF in.aff = 1 THEN {"z1", "z2", "z3"} ELSE ZoneU   \* what the pod's own affinity allowed (harness: term 1 names z1..z3, term 2 no zone)
 ByName(in, n) == CHOOSE p \in Rng(in.pns) : p.name = n
 Resolvable(in) == \A ix \in 1..Len(in.reqs.refs) : \E p \in Rng(in.pns) : p.name = in.reqs.refs[ix].net
 CommonZones(in) == { zn \in ZoneU : \A ix \in 1..Len(in.reqs.refs) : zn \in Rng(ByName(in, in.reqs.refs[ix].net).zones) }
@@ -250,7 +254,10 @@ ZoneBad(in, out) ==
     LET az == AllowedZones(out.aff) IN
     IF in.owner = "DaemonSet" THEN FALSE
     ELSE IF ByRequest(in) /\ Resolvable(in)
-         THEN CommonZones(in) # {} /\ ~(az \subseteq CommonZones(in))
+         THEN IF CommonZones(in) # {} THEN ~(az \subseteq CommonZones(in))
+              \* no common zone: admitting the pod without a zone restriction is tolerated (R8), but a restriction the
+              \* webhook adds must still not pin the pod to zones in which some requested network has no vSwitch
+              ELSE az # InputAllowed(in) /\ az # {}
     ELSE IF BySelector(in) /\ (\E p \in Selecting(in) : Usable(p, in))
          THEN ~(\E p \in Selecting(in) : Rng(p.zones) = {} \/ az \subseteq Rng(p.zones))
     ELSE FALSE
